@@ -36,6 +36,17 @@ namespace
       FilterChain<UF, UF> ch(std::move(f1), std::move(f2));
       // derived object (deep clone, move-assigned back) and re-invocation (used on another vector before), rotating
       if((S1 + 2 * S2 + unsigned(op)) % 3 == 0) { FilterChain<UF, UF> d = ch.clone(CloneMode::Deep); ch = std::move(d); c.count("cases_on_derived_filters"); }
+#if C06_HAVE_COMBINATOR_FIXES
+      std::unique_ptr<FilterChain<UF, UF>> chsrc;
+      if((S1 + 2 * S2 + unsigned(op)) % 3 == 1)
+      {
+        chsrc.reset(new FilterChain<UF, UF>(std::move(ch)));
+        RUnit rx, ry;
+        ch = FilterChain<UF, UF>(make_unit<DT>(n, ~S1 & ((1u << n) - 1u), ORD_ASC, rx, 2), make_unit<DT>(n, 0, ORD_ASC, ry, 2));
+        ch.clone(*chsrc, CloneMode::Deep);
+        c.count("cases_on_derived_filters");
+      }
+#endif
       if((S1 + S2 + unsigned(op)) % 2 == 1 && op < 4) { auto w = xvec<DT>(n, 3); apply_op(ch, w, (op + 1) % 4); c.count("cases_on_previously_used_filters"); }
       if(op < 4)
       {
@@ -66,10 +77,15 @@ namespace
       const unsigned S1 = S & ((1u << n) - 1u), S2 = (S >> n) & ((1u << n) - 1u), S3 = (S >> (2 * n)) & ((1u << n) - 1u);
       c.desc([&]{ return kname + "(3 links) n=" + std::to_string(n) + " S1=" + set_name(S1, n) + " S2=" + set_name(S2, n) + " S3=" + set_name(S3, n) + " op=" + fop_name[op]; });
       RUnit r1, r2, r3;
+#if C06_HAVE_COMBINATOR_FIXES
+      FilterChain<UF, UF, UF> ch(make_unit<DT>(n, S1, ORD_ASC, r1, 0), make_unit<DT>(n, S2, ORD_ASC, r2, 1), make_unit<DT>(n, S3, ORD_ASC, r3, 2));
+      if((S + unsigned(op)) % 2) { FilterChain<UF, UF, UF> d; d.clone(ch, CloneMode::Deep); ch = std::move(d); c.count("cases_on_derived_filters"); }
+#else
       FilterChain<UF, UF, UF> ch;
       ch.template at<0>() = make_unit<DT>(n, S1, ORD_ASC, r1, 0);
       ch.template at<1>() = make_unit<DT>(n, S2, ORD_ASC, r2, 1);
       ch.template at<2>() = make_unit<DT>(n, S3, ORD_ASC, r3, 2);
+#endif
       auto v = xvec<DT>(n, 8);
       check_vec(c, kname + "(3 links)", ch, v, op, [&](Ref& r) { r1.apply(r, op); r2.apply(r, op); r3.apply(r, op); }, no_cons);
       if(S != 0) c.nontrivial(verif::Hash().str(kname).str("3").pod(n).pod(S).pod(op).get());
@@ -191,6 +207,9 @@ namespace
       }
       c.check(seq.size() == size_t(k), kname + ": size", "wrong number of links");
       if((code + unsigned(op)) % 3 == 0) { FilterSequence<UF> d = seq.clone(CloneMode::Deep); seq = std::move(d); c.count("cases_on_derived_filters"); }
+#if C06_HAVE_COMBINATOR_FIXES
+      if((code + unsigned(op)) % 3 == 1) { FilterSequence<UF> d; RUnit rst; d.find_or_add("stale") = make_unit<DT>(n, 3u, ORD_ASC, rst, 3); d.clone(seq, CloneMode::Deep); seq = std::move(d); c.count("cases_on_derived_filters"); }
+#endif
       if((code + unsigned(op)) % 2 == 1 && op < 4) { auto w = xvec<DT>(n, 3); apply_op(seq, w, (op + 1) % 4); c.count("cases_on_previously_used_filters"); }
       if(op < 4)
       {
@@ -231,6 +250,16 @@ namespace
       RUnit r1; RUnitB r2;
       TupleFilter<UF, UB> tf(make_unit<DT>(n1, S1, ORD_DESC, r1), make_unitb<DT, 2>(n2, S2, ORD_ASC, false, 0, r2, 1));
       if((S1 + 2 * S2 + unsigned(op)) % 3 == 0) { TupleFilter<UF, UB> d = tf.clone(CloneMode::Deep); tf = std::move(d); c.count("cases_on_derived_filters"); }
+      std::unique_ptr<TupleFilter<UF, UB>> tsrc;
+      if((S1 + 2 * S2 + unsigned(op)) % 3 == 1)
+      {
+        // clone(other, mode) into an existing tuple filter; the source stays alive
+        tsrc.reset(new TupleFilter<UF, UB>(std::move(tf)));
+        RUnit rx; RUnitB ry;
+        tf = TupleFilter<UF, UB>(make_unit<DT>(n1, 0, ORD_ASC, rx), make_unitb<DT, 2>(n2, 0, ORD_ASC, false, 0, ry));
+        tf.clone(*tsrc, CloneMode::Deep);
+        c.count("cases_on_derived_filters");
+      }
       TupleVector<DV, DVB> v{DV(Index(n1)), DVB(Index(n2))};
       { std::vector<DT> x(size_t(n1 + 2 * n2)); for(size_t i = 0; i < x.size(); ++i) x[i] = DT(xval(Index(i), 12)); set_flat(v, x); }
       check_vec(c, kname + " TupleFilter<Unit,UnitBlocked2>", tf, v, op, [&](Ref& r) {
@@ -289,6 +318,9 @@ namespace
         PowerFilter<UF, 2> pf;
         for(int j = 0; j < 2; ++j) pf.get(j) = make_unit<DT>(n, (S >> (n * j)) & ((1u << n) - 1u), ORD_ASC, refs[size_t(j)], j);
         if((S + unsigned(op)) % 3 == 0) { PowerFilter<UF, 2> d = pf.clone(CloneMode::Deep); pf = std::move(d); c.count("cases_on_derived_filters"); }
+#if C06_HAVE_COMBINATOR_FIXES
+        if((S + unsigned(op)) % 3 == 1) { PowerFilter<UF, 2> d; d.clone(pf, CloneMode::Deep); pf = std::move(d); c.count("cases_on_derived_filters"); }
+#endif
         PowerVector<DV, 2> v{Index(n)}; set_flat(v, x);
         check_vec(c, kname + " PowerFilter<Unit,2>", pf, v, op, model, no_cons);
       }
@@ -311,7 +343,26 @@ namespace
       if(!c.want()) continue;
       c.desc([&]{ return kname + " Global::Filter<Unit> n=" + std::to_string(n) + " S=" + set_name(S, n) + " op=" + fop_name[op]; });
       RUnit ru;
-      Global::Filter<UF, Mir> gf(make_unit<DT>(n, S, ORD_ASC, ru));
+      Global::Filter<UF, Mir> gf0(make_unit<DT>(n, S, ORD_ASC, ru));
+      Global::Filter<UF, Mir> gf;
+      std::shared_ptr<void> gkeep;
+      switch((S + unsigned(op) + unsigned(n)) % 4)
+      {
+      case 1: gf = gf0.clone(LAFEM::CloneMode::Deep); c.count("cases_on_derived_filters"); break;
+      case 2: { RUnit rz; gf = Global::Filter<UF, Mir>(make_unit<DT>(n, ~S & ((1u << n) - 1u), ORD_ASC, rz, 2)); gf.clone(gf0, LAFEM::CloneMode::Deep); c.count("cases_on_derived_filters"); break; }
+      case 3:
+      {
+        typedef typename std::conditional<std::is_same<DT, double>::value, float, double>::type DT2;
+        RUnit rz;
+        auto src = std::make_shared<Global::Filter<UnitFilter<DT2, Index>, VectorMirror<DT2, Index>>>(make_unit<DT2>(n, S, ORD_DESC, rz));
+        gkeep = src;
+        gf.convert(*src);
+        c.count("cases_on_derived_filters");
+        break;
+      }
+      default: gf = Global::Filter<UF, Mir>(std::move(gf0)); break;
+      }
+      c.check(n == 0 || gf.bytes() >= gf.local().get_filter_vector().used_elements() * sizeof(DT), kname + " Global::Filter: bytes", "bytes() smaller than the stored values");
       Global::Vector<DV, Mir> gv(nullptr, Index(n));
       for(int i = 0; i < n; ++i) gv.local().elements()[i] = DT(xval(Index(i), 15));
       check_vec_fn(c, kname + " Global::Filter<Unit>", gv.local(), op, [&]{ apply_op(gf, gv, op); }, [&](Ref& r) { ru.apply(r, op); }, no_cons);
